@@ -34,31 +34,35 @@ ASSUMPTIONS = [
 MIN_COUNTERS = {
     "quick": {
         "point_queries": 6000,
-        "point_in_clear": 800,
-        "point_out": 800,
-        "point_in_blocked": 100,
-        "object_queries": 600,
-        "object_sphere_outside": 60,
-        "object_fully_occluded": 30,
-        "object_visible_disc": 60,
-        "region_checks": 1500,
-        "monotonic_pairs": 3000,
-        "operator_checks": 100,
-        "viewers_oriented_offorigin": 500,
+        "point_in_clear": 2500,
+        "point_out": 2500,
+        "point_in_blocked": 250,
+        "object_queries": 700,
+        "object_sphere_outside": 200,
+        "object_fully_occluded": 80,
+        "object_visible_disc": 100,
+        "region_checks": 1800,
+        "monotonic_pairs": 4000,
+        "operator_checks": 80,
+        "viewers_oriented_offorigin": 200,
+        "viewers_with_camera_offset": 60,
+        "viewers_with_parent_orientation": 40,
     },
     "thorough": {
-        "point_queries": 100000,
-        "point_in_clear": 10000,
-        "point_out": 10000,
-        "point_in_blocked": 1500,
-        "object_queries": 10000,
-        "object_sphere_outside": 1000,
-        "object_fully_occluded": 500,
-        "object_visible_disc": 1000,
-        "region_checks": 20000,
-        "monotonic_pairs": 50000,
-        "operator_checks": 1500,
-        "viewers_oriented_offorigin": 8000,
+        "point_queries": 150000,
+        "point_in_clear": 60000,
+        "point_out": 60000,
+        "point_in_blocked": 6000,
+        "object_queries": 16000,
+        "object_sphere_outside": 4500,
+        "object_fully_occluded": 1800,
+        "object_visible_disc": 2200,
+        "region_checks": 40000,
+        "monotonic_pairs": 90000,
+        "operator_checks": 1800,
+        "viewers_oriented_offorigin": 4500,
+        "viewers_with_camera_offset": 1500,
+        "viewers_with_parent_orientation": 1000,
     },
 }
 
@@ -69,6 +73,7 @@ KEY_PTREGION = "visibleregion.point-sphere-diameter-used-as-radius"
 
 SHAPES = {"box": "BoxShape()", "spheroid": "SpheroidShape()", "cylinder": "CylinderShape()", "cone": "ConeShape()"}
 MAX_RAYS = 15000.0
+RAY_BUDGET = {"box": 15000.0, "cylinder": 5000.0, "cone": 6000.0, "spheroid": 700.0}
 
 
 # ---------------------------------------------------------------------------------------------------------
@@ -216,12 +221,12 @@ def gen_viewer(rng, O):
     # ---- solid targets
     objs = []
     for _ in range(int(rng.choice([0, 1, 2], p=[0.35, 0.45, 0.2]))):
-        shape = str(rng.choice(list(SHAPES)))
+        shape = str(rng.choice(["box", "cylinder", "cone", "spheroid"], p=[0.4, 0.25, 0.23, 0.12]))
         dims = rng.uniform(0.5, 8.0, 3)
         cat = str(
             rng.choice(
-                ["in", "out-az", "out-alt", "edge", "back", "random", "enclose", "far", "range-edge"],
-                p=[0.3, 0.1, 0.08, 0.12, 0.1, 0.08, 0.08, 0.07, 0.07],
+                ["in", "out-az", "out-alt", "edge", "back", "random", "enclose", "far", "range-edge", "back-edge"],
+                p=[0.22, 0.1, 0.08, 0.12, 0.1, 0.08, 0.08, 0.07, 0.07, 0.08],
             )
         )
         if cat == "out-az" and h > 2 * math.pi - 0.3:
@@ -229,9 +234,24 @@ def gen_viewer(rng, O):
         if cat == "out-alt" and vv > math.pi - 0.3:
             cat = "in"
         radius = float(np.linalg.norm(dims) / 2)
+        if cat == "back-edge" and not (math.pi + 0.2 < h < 2 * math.pi - 0.3):
+            cat = "back"
         if cat == "enclose":
             dims = rng.uniform(3.0, 30.0, 3) * (4 if rng.random() < 0.35 else 1)
             c = ov.cam + rng.uniform(-0.3, 0.3, 3) * dims
+        elif cat == "back-edge":
+            # big target behind the viewer whose centre is just outside the (> 180 deg) window while a good part
+            # of it is inside: no centre shortcut, the behind-the-viewer ray windows decide
+            dims = rng.uniform(2.0, 7.0) * np.array([1.0, rng.uniform(0.75, 1.0), rng.uniform(0.75, 1.0)])
+            radius = float(np.linalg.norm(dims) / 2)
+            sgn = 1 if rng.random() < 0.5 else -1
+            az = sgn * (h / 2 + rng.uniform(0.03, 0.15))
+            if abs(az) > math.pi:
+                az = sgn * math.pi
+            alt = rng.uniform(-vv / 2, vv / 2) * 0.4
+            ang = math.radians(rng.uniform(20, 35))
+            rho = min(radius / math.sin(ang), 0.8 * v["d"])
+            c = ov.to_global(O.dir_from(az, alt) * rho)
         else:
             az, alt = local_dir(cat if cat not in ("far", "range-edge") else "in")
             if cat == "far":
@@ -264,7 +284,9 @@ def gen_viewer(rng, O):
             else:
                 ca = max(0.05, math.cos(abs(alt) + math.radians(a)))
                 area = max(area, min(hd, (2 * a + 2) / ca) * min(vd, 2 * a + 2))
-    smin = math.sqrt(area / MAX_RAYS)
+    # the pure-python ray/triangle engine costs ~ rays x faces: fewer rays for many-faced targets
+    budget = min([MAX_RAYS] + [RAY_BUDGET[o["shape"]] for o in objs])
+    smin = math.sqrt(area / budget)
     pref = float(rng.choice([0.2, 0.5, 1.0, 2.0], p=[0.3, 0.3, 0.25, 0.15]))
     s = max(pref, smin)
     mode = str(rng.choice(["density", "count", "dscale"], p=[0.5, 0.3, 0.2]))
@@ -522,6 +544,7 @@ def run_case(case, ctx, rng, only=None):
         offorigin = float(np.linalg.norm(v["pos"])) > 1.0
         rotated = oriented and (any(abs(a) > 1e-9 for a in v["ypr"]) or v.get("parent") is not None)
         interesting = offorigin and (rotated or not oriented)
+        cam_off = float(np.linalg.norm(ov.cam)) > 1e-6  # the rotate-about-origin defect needs a camera away from the origin
         ctx.bump("viewers")
         ctx.bump("viewer_kind_" + v["kind"])
         if oriented and rotated and offorigin:
@@ -574,7 +597,7 @@ def run_case(case, ctx, rng, only=None):
                     ctx.res["nontrivial"].append(su.h(["p", v["pos"], v["ypr"], v["parent"], v["cam"], p["p"], sub]))
                 if real != exp:
                     key = None
-                    if oriented and O.rotate_first_model(ov, True, p["p"], bsub) == real:
+                    if oriented and rotated and cam_off and O.rotate_first_model(ov, True, p["p"], bsub) == real:
                         key = KEY_ROTATE
                     q = ov.local(p["p"])
                     rho, az, alt = O.az_alt(q)
@@ -636,11 +659,12 @@ def run_case(case, ctx, rng, only=None):
                     ctx.skip("object_" + cls)
                     continue
                 ctx.bump("object_" + cls.replace("-", "_"))
+                ctx.bump("object_definite_" + o["cat"].replace("-", "_") + ("_T" if exp else "_F"))
                 if interesting:
                     ctx.res["nontrivial"].append(su.h(["o", v["pos"], v["ypr"], v["parent"], v["cam"], o["pos"], o["dims"], sub]))
                 if real != exp:
                     key = None
-                    if real and oriented and O.rotate_first_model(ov, True, o["pos"], bsub) is True:
+                    if real and oriented and rotated and cam_off and O.rotate_first_model(ov, True, o["pos"], bsub) is True:
                         key = KEY_ROTATE
                     if (not real) and cls == "visible-cam-inside":
                         key = KEY_INSIDE
@@ -748,7 +772,7 @@ def check_shape_models(ctx):
 
 def plan(tier, seed):
     n = 16 if tier == "quick" else 64
-    per = 4 if tier == "quick" else 20
+    per = 2 if tier == "quick" else 10  # x 16..22 viewers each
     return [{"shard": i, "programs": per, "timeout": 900 if tier == "quick" else 2400} for i in range(n)]
 
 
@@ -760,7 +784,7 @@ def run_shard(spec):
         ctx.violation(None, f"oracle self-check: inner shape model not contained in the real mesh for {bad} (check the oracle, not Scenic)", {"case": None, "q": None})
         return ctx.res
     for k in range(spec["programs"]):
-        case = gen_case(rng, nviewers=int(rng.integers(10, 15)))
+        case = gen_case(rng, nviewers=int(rng.integers(16, 23)))
         src = run_case(case, ctx, rng)
         if len(ctx.res["samples"]) < 1 and k == 0:
             ctx.res["samples"].append({"program": src, "case(first viewer)": case["viewers"][0], "ops": case["ops"]})
